@@ -130,11 +130,19 @@ func scanAggSym(c *core.Ctx) []ob {
 			if !ok {
 				return true
 			}
-			sel, ok := unparen(call.Fun).(*ast.SelectorExpr)
-			if !ok {
+			sel, isSel := unparen(call.Fun).(*ast.SelectorExpr)
+			name := ""
+			if isSel {
+				name = sel.Sel.Name
+			} else if id, ok := unparen(call.Fun).(*ast.Ident); ok {
+				name = id.Name
+			}
+			if aggHelperDelegation(c, info, call, name, params, views, covered, &nAdds, &problems) {
 				return true
 			}
-			name := sel.Sel.Name
+			if !isSel {
+				return true
+			}
 			if name == "AggregateShares" && len(call.Args) == 3 {
 				var projs [3]string
 				for i, a := range call.Args {
@@ -350,4 +358,108 @@ func init() {
 			}
 			return out
 		}})
+}
+
+// aggHelperAdds holds a helper that receives one projection of the three shares to the standard of AggregateShares:
+// every ring operation that writes its third share adds the same component of the two others.
+func aggHelperAdds(info *types.Info, fd *ast.FuncDecl, params []types.Object) (int, []string) {
+	views := map[types.Object]ast.Expr{}
+	ast.Inspect(fd.Body, func(nd ast.Node) bool {
+		if as, ok := nd.(*ast.AssignStmt); ok && as.Tok == token.DEFINE && len(as.Lhs) == len(as.Rhs) {
+			for i, l := range as.Lhs {
+				if id, ok := l.(*ast.Ident); ok {
+					views[info.Defs[id]] = as.Rhs[i]
+				}
+			}
+		}
+		return true
+	})
+	n := 0
+	var problems []string
+	ast.Inspect(fd.Body, func(nd ast.Node) bool {
+		call, ok := nd.(*ast.CallExpr)
+		if !ok || len(call.Args) < 2 {
+			return true
+		}
+		sel, ok := unparen(call.Fun).(*ast.SelectorExpr)
+		if !ok {
+			return true
+		}
+		last := call.Args[len(call.Args)-1]
+		pi, pr := aggProjection(info, last, params, views, 0)
+		if pi != 2 || !polyish(info.TypeOf(last)) {
+			return true
+		}
+		rt := namedOf(info.TypeOf(sel.X))
+		if rt == nil || rt.Obj().Name() != "Ring" {
+			return true
+		}
+		if (sel.Sel.Name != "Add" && sel.Sel.Name != "AddLazy") || len(call.Args) != 3 {
+			problems = append(problems, fmt.Sprintf("%s (in helper %s) writes the output share with %s instead of Add", exprString(call), fd.Name.Name, sel.Sel.Name))
+			return true
+		}
+		p0, r0 := aggProjection(info, call.Args[0], params, views, 0)
+		p1, r1 := aggProjection(info, call.Args[1], params, views, 0)
+		if !((p0 == 0 && p1 == 1) || (p0 == 1 && p1 == 0)) {
+			problems = append(problems, fmt.Sprintf("%s (in helper %s) does not add one component of each input share", exprString(call), fd.Name.Name))
+		} else if r0 != pr || r1 != pr {
+			problems = append(problems, fmt.Sprintf("%s (in helper %s) adds components %q and %q into component %q", exprString(call), fd.Name.Name, r0, r1, pr))
+		}
+		n++
+		return true
+	})
+	return n, problems
+}
+
+// aggHelperDelegation recognises the delegation of one component to a helper of the module that receives the same
+// projection of the three shares in order (`addComponent(ringQP, 0, share1.Value, share2.Value, share3.Value)`): the
+// helper's body is held to the same standard with its own parameters as the triple.
+func aggHelperDelegation(c *core.Ctx, info *types.Info, call *ast.CallExpr, name string, params []types.Object, views map[types.Object]ast.Expr, covered map[string]bool, nAdds *int, problems *[]string) bool {
+	hf := calleeFunc(info, call)
+	if hf == nil || hf.Pkg() == nil || !strings.HasPrefix(hf.Pkg().Path(), core.ModPath) || name == "Add" || name == "AddLazy" || name == "AggregateShares" {
+		return false
+	}
+	idx := [3]int{-1, -1, -1}
+	var hp [3]string
+	for ai, a := range call.Args {
+		if pi, pr := aggProjection(info, a, params, views, 0); pi >= 0 && pi <= 2 && idx[pi] < 0 {
+			idx[pi], hp[pi] = ai, pr
+		}
+	}
+	if idx[0] < 0 || idx[1] < 0 || idx[2] < 0 || hp[0] != hp[1] || hp[1] != hp[2] {
+		return false
+	}
+	hpk := c.ByPath[hf.Pkg().Path()]
+	if hpk == nil {
+		return false
+	}
+	for _, hfile := range hpk.Syntax {
+		for _, hd := range hfile.Decls {
+			hfd, ok := hd.(*ast.FuncDecl)
+			if !ok || hfd.Body == nil {
+				continue
+			}
+			if o, _ := hpk.TypesInfo.Defs[hfd.Name].(*types.Func); o == nil || funcOrigin(o) != funcOrigin(hf) {
+				continue
+			}
+			var hparams []types.Object
+			for _, f := range hfd.Type.Params.List {
+				for _, nm := range f.Names {
+					hparams = append(hparams, hpk.TypesInfo.Defs[nm])
+				}
+			}
+			if idx[0] >= len(hparams) || idx[1] >= len(hparams) || idx[2] >= len(hparams) {
+				continue
+			}
+			triple := []types.Object{hparams[idx[0]], hparams[idx[1]], hparams[idx[2]]}
+			na, probs := aggHelperAdds(hpk.TypesInfo, hfd, triple)
+			if na > 0 && len(probs) == 0 {
+				*nAdds += na
+				covered[firstField(hp[2])] = true
+			}
+			*problems = append(*problems, probs...)
+			return true
+		}
+	}
+	return false
 }
